@@ -116,6 +116,23 @@ def summarize(modname, fn):
                 fwd_kernels.append((sub.func.value.id + "." + sub.func.attr, [U(a) for a in sub.args] + ["%s=%s" % (k.arg, U(k.value)) for k in sub.keywords]))
     if backward is None or tensor_call is None:
         raise Untranslatable("%s: no backward closure / Tensor construction" % fn.name)
+    # exactly one exit, returning the freshly constructed result (a wrapper that can return anything else -
+    # an operand, a cached tensor - escapes the summary)
+    all_returns = []
+
+    def collect_returns(nodes):
+        for n in nodes:
+            if isinstance(n, ast.FunctionDef):
+                continue
+            if isinstance(n, ast.Return):
+                all_returns.append(n)
+            for fld in ("body", "orelse", "finalbody", "handlers"):
+                sub = getattr(n, fld, None)
+                if isinstance(sub, list):
+                    collect_returns(sub)
+    collect_returns(fn.body)
+    if len(all_returns) != 1 or not isinstance(fn.body[-1], ast.Return) or U(all_returns[0].value) != out_name:
+        raise Untranslatable("%s: expected a single `return %s` at the end, found %s" % (fn.name, out_name, [U(r.value) if r.value else None for r in all_returns]))
     kw = {k.arg: U(k.value) for k in tensor_call.keywords}
     for need in ("children", "requires_grad", "operation"):
         if need not in kw:
